@@ -1,7 +1,8 @@
 #!/venv/bin/python
 """Regression over the stored seeded breakages: every /verif/seeded/<name>/patch.diff is applied to a
 scratch worktree and the checks recorded in its meta.json are run against it.  Prints one line per
-(seed, check); exit 1 if any seed is no longer caught."""
+(seed, check); exit 1 if any seed is no longer caught by any of its checks
+or its patch no longer applies."""
 import json
 import os
 import shutil
@@ -27,16 +28,22 @@ def main():
             p = subprocess.run(["git", "-C", scratch, "apply", os.path.join(d, "patch.diff")], capture_output=True, text=True)
             if p.returncode != 0:
                 print("%s: patch no longer applies (%s)" % (name, p.stderr.strip()[:100]), flush=True)
+                missed += 1
                 continue
+            caught_by = []
             for c in meta.get("checks", {}):
                 env = dict(os.environ, VERIF_REPO=scratch, VERIF_NO_EVIDENCE="1",
                            VERIF_WORK=os.path.join(VERIF, ".work", "reseed"))
                 r = subprocess.run(["/venv/bin/python", os.path.join(VERIF, "vcheck.py"), c, "--tier", "quick"],
                                    cwd=VERIF, env=env, capture_output=True, text=True, timeout=1800)
                 verdict = {0: "held (MISSED)", 1: "VIOLATION (caught)", 2: "INCONCLUSIVE"}.get(r.returncode, str(r.returncode))
-                if r.returncode != 1:
-                    missed += 1
+                if r.returncode == 1:
+                    caught_by.append(c)
                 print("%s %s %s" % (name, c, verdict), flush=True)
+            if not caught_by:
+                # a seed counts as caught when at least one of the checks recorded for it fires
+                missed += 1
+                print("%s NOT CAUGHT by any of %s" % (name, sorted(meta.get("checks", {}))), flush=True)
         finally:
             subprocess.run(["git", "-C", "/repo", "worktree", "remove", "--force", scratch], capture_output=True)
             shutil.rmtree(scratch, ignore_errors=True)
